@@ -21,7 +21,7 @@ def main(args):
             continue
         p = subprocess.run([os.path.join(HERE, "tools", "mut.sh"), os.path.join(root, n, "patch.diff"), prop, "quick"], capture_output=True, text=True, timeout=3000)
         ok = p.returncode == 1 and "VIOLATION property=%s" % prop in p.stdout
-        if "FAILED" in p.stdout + p.stderr or "does not apply" in p.stdout + p.stderr:
+        if "saving rejects to file" in p.stdout + p.stderr or "can't find file to patch" in p.stdout + p.stderr or "does not apply" in p.stdout + p.stderr:
             print("%s: patch no longer applies to /repo's working tree" % n)
             bad += 1
             continue
